@@ -57,6 +57,7 @@ def run(ctx):
                  holds=bool(paths) and not early, key="C15/R1 Policies::evaluate early-exit")
     r2_workspace(chk, fx)
     r2_agent_side(chk, fx)
+    r2_unwinding_reaches_the_catch(chk, fx)
     r2_dependency(ctx, chk, fx)
     r3_evaluator_survives(ctx, chk, fx)
     r4_compare_tolerates_failure(chk, fx)
@@ -224,6 +225,49 @@ def r2_workspace(chk, fx):
                              "caught by catch_unwind, but the connection is not handed back: the remaining policies cannot be evaluated")
     chk.instance("C15/R2", "no explicit panic / unwrap in RpslEvaluator's resolver and evaluator methods (%d bodies)" % len(bodies),
                  "bgpfu::query", None, holds=True)
+
+
+def r2_unwinding_reaches_the_catch(chk, fx):
+    """catch_unwind contains a panic only if the panic *unwinds*.  Two things in the agent's own hands can take that away: a panic hook
+    (it runs before unwinding starts) that ends the process, and a build profile with `panic = "abort"`."""
+    import os
+    from vlib import gen
+    n_hooks = 0
+    for name, b in sorted(fx.mir.items()):
+        if b.crate not in (AGENT, "bgpfu") or "::tests::" in name:
+            continue
+        for c in b.calls():
+            if c.macro or not c.is_fn("std::panic::set_hook", "panic::set_hook"):
+                continue
+            n_hooks += 1
+            # the hook: closures defined in this body (and what they call in the workspace)
+            ends = []
+            work = [n2 for n2 in fx.mir if n2.startswith(name.split("::{closure")[0] + "::{closure")] + [name]
+            seen = set()
+            while work:
+                n2 = work.pop()
+                if n2 in seen or n2 not in fx.mir:
+                    continue
+                seen.add(n2)
+                for x in fx.mir[n2].calls():
+                    if x.is_fn("std::process::exit", "process::exit", "std::process::abort", "process::abort", "intrinsics::abort", "libc::_exit", "libc::abort"):
+                        ends.append((n2, x))
+                    tgt = None if x.macro else (x.rdef if x.rdef in fx.mir else x.defn if x.defn in fx.mir else None)
+                    if tgt and fx.mir[tgt].crate in (AGENT, "bgpfu"):
+                        work.append(tgt)
+            chk.instance("C15/R2", "the panic hook installed in %s lets the panic unwind (it does not end the process)" % T.short(T.strip_generics(name), 2), name, c.loc(),
+                         holds=not ends, key="C15/R2 panic-hook-ends-the-process %s" % T.strip_generics(name.split("::{closure")[0]),
+                         detail=None if not ends else "%s is called from the hook: the process is gone before catch_unwind in Candidate::evaluate sees the panic" % T.short(ends[0][1].name(), 2))
+    aborts = []
+    for root, dirs, files in os.walk(gen.REPO):
+        dirs[:] = [d for d in dirs if d not in ("target", ".git")]
+        for f in files:
+            if f == "Cargo.toml" or (f == "config.toml" and root.endswith(".cargo")):
+                txt = open(os.path.join(root, f)).read()
+                if re.search(r'^\s*panic\s*=\s*"abort"', txt, flags=re.M):
+                    aborts.append(os.path.relpath(os.path.join(root, f), gen.REPO))
+    chk.instance("C15/R2", "no build profile of the workspace sets panic = \"abort\" (%d panic hooks examined)" % n_hooks, "Cargo.toml", aborts[0] if aborts else None,
+                 holds=not aborts, key="C15/R2 profile-panic-abort")
 
 
 IRRC_DEFAULT_CAPACITY = {"0.1.0": 1 << 20}
